@@ -23,6 +23,9 @@ END token).  Identifiers, literals, comments and layout are identical in all spe
                 assignments; generate .. to self / class / assigner / creator, create event instance + generate,
                 bridge and transform invocations, control stop, rcvd_evt, send - D(i), D(ii) via run_operation /
                 run_derived_attribute, D(iii) via the O_TFR / O_DBATTR prebuilders
+  All spellings of a case are parsed / interpreted / prebuilt back to back in ONE process, with a REJECTED text (a
+  broken copy containing `%s`) in between, the lower-case text once more at the end and the lower-case text with
+  layout around it (equal after strip(); no prebuild comparison, positions legitimately differ).
   K    the token stream (kind, lexeme with keyword spellings lower-cased) of the real lexer on every spelling
        equals the Lean lexer model's (`lex` + `normTok`).
 The replay of a violation is the pair of programs.
@@ -116,13 +119,13 @@ def _case(rng, kind, tag):
 
 def generate(ctx):
     rng = ctx.rng.fork('op')
-    for i in range(ctx.pick(200, 4000)):
+    for i in range(ctx.pick(180, 4000)):
         yield _case(rng.fork(i), 'op' if i % 4 else 'dattr', ['op', i])
     rng = ctx.rng.fork('exec')
-    for i in range(ctx.pick(220, 5000)):
+    for i in range(ctx.pick(180, 5000)):
         yield _case(rng.fork(i), 'exec', ['exec', i])
     rng = ctx.rng.fork('parse')
-    for i in range(ctx.pick(900, 16000)):
+    for i in range(ctx.pick(800, 16000)):
         yield _case(rng.fork(i), 'parse', ['parse', i])
 
 
@@ -382,7 +385,23 @@ def run_impl(case):
         b_pre = _prebuild(base, home)
         stats['run_' + b_run[0][0]] = 1
         stats['prebuild_' + b_pre[0]] = 1
-    for mode, text in texts[1:]:
+    # the spellings are evaluated back to back in this one process; in between a text that is REJECTED (a broken
+    # copy of the program with a format-like token), at the end the lower-case text once more and the lower-case text
+    # with layout around it (equal after strip()): nothing may leak from one parse / run / prebuild into the next
+    broken = base[:len(base) // 2] + ' %s ) ( ' + base[len(base) // 2:]
+    sequence = [(m, t, 'full') for m, t in texts[1:2]] + [('rejected', broken, 'reject')] + \
+               [(m, t, 'full') for m, t in texts[2:]] + [('lower-again', base, 'full'),
+                                                         ('lower-padded', '\n  ' + base + '  \n', 'noprebuild')]
+    for mode, text, how in sequence:
+        if how == 'reject':
+            o_bad, _ = _parse(text)
+            stats['rejected_' + o_bad.split(':')[0]] = 1
+            if not (o_bad == 'ParseException' or o_bad == 'tree'):
+                fail('parse-outcome', 'parsing a malformed text ends with %s' % o_bad, mode, text)
+            if exec_kind:
+                _run(text, case['n'], home)
+                _prebuild(text, home)
+            continue
         out, tree = _parse(text)
         if out != b_out:
             fail('parse-outcome', 'parsing ends with %s for the lower-case spelling and %s for the %s spelling'
@@ -399,10 +418,11 @@ def run_impl(case):
             elif run[1] != b_run[1]:
                 fail('interpret-population', 'the final populations differ: %s' % _first_diff(b_run[1], run[1]),
                      mode, text)
-            pre = _prebuild(text, home)
-            if pre != b_pre:
-                fail('prebuild-instances', 'the prebuilt ACT_/V_/E_ instances differ: %s' % _first_diff(b_pre, pre),
-                     mode, text)
+            if how == 'full':
+                pre = _prebuild(text, home)
+                if pre != b_pre:
+                    fail('prebuild-instances', 'the prebuilt ACT_/V_/E_ instances differ: %s' % _first_diff(b_pre, pre),
+                         mode, text)
     nontrivial = case.get('respelled', 0) >= 4 and b_out == 'tree' and (not exec_kind or b_run[0][0] == 'ok')
     try:
         obs = [_tok_obs(t) for _, t in texts]
